@@ -324,6 +324,32 @@ theorem C08_client_new_stream_first (cfg : CCfg) (c : Cli α) (cs ss : Bool) (me
   let r := Proofs.ClientInv.client_newStream_ok cfg c cs ss method md timeout cancelled sid h hlt h0
   ⟨r.1, r.2.1, r.2.2.1⟩
 
+/-! ### the allocation counter at its limits (`IdRules.allocate`, the arithmetic
+of `allocateStream`) -/
+
+/-- below the limit the next id is the successor: positive and larger than the last -/
+theorem C08_allocate_succ (l : Int) (h0 : 0 ≤ l) (hlt : l < IdRules.maxInt64) :
+    IdRules.allocate l = some (l + 1) := by
+  unfold IdRules.allocate IdRules.wrap64
+  unfold IdRules.maxInt64 at *
+  have h1 : ¬ l < 0 := by omega
+  have h2 : ¬ l + 1 > 9223372036854775807 := by omega
+  simp [h1, h2]
+
+/-- once the counter is negative every further RPC is refused
+    ("all stream IDs exhausted"): no id is ever handed out twice by wrapping on -/
+theorem C08_allocate_exhausted (l : Int) (h : l < 0) : IdRules.allocate l = none := by
+  simp [IdRules.allocate, h]
+
+/-- the boundary as the code has it, stated and not hidden: the `2^63`-th RPC of
+    one channel takes the wrapped id `-2^63` before the refusal sets in (the
+    hypothesis `xs.length < 2^63 - 1` of `C08_client_ids_increasing` excludes
+    exactly this point; it is distinct from every id used before, so ids are
+    still never reused) -/
+theorem C08_allocate_at_limit :
+    IdRules.allocate IdRules.maxInt64 = some (-9223372036854775808) ∧
+    IdRules.allocate (-9223372036854775808) = none := by decide
+
 /-! ### concurrent callers (L-atomic model `TunnelModel/IdAlloc.lean`) -/
 
 open TunnelModel.IdAlloc in
